@@ -540,14 +540,15 @@ def run_library_load_ff(ctx, count):
                     (root / lib).mkdir()
                     libnames.append(lib)
                     taken = set()
-                    for fname in rng.sample(["x.ff", "y.ff", "notes.txt", "z.bld"], rng.randint(1, 3)):
+                    for fname in rng.sample(["x.ff", "y.ff", "w.itp", "notes.txt", "z.bld", "README"], rng.randint(1, 4)):
                         path = root / lib / fname
-                        blocks = [b for b in blocks_for(rng.randint(1, 2)) if b[0] not in taken] if fname.endswith(".ff") else []
+                        # (a one-atom block reads the same in .ff and in polyply .itp syntax: every suffix with definitions)
+                        blocks = [b for b in blocks_for(rng.randint(1, 2)) if b[0] not in taken] if fname.endswith((".ff", ".itp")) else []
                         taken |= {b[0] for b in blocks}       # one name once per library: listing order is the OS's
                         path.write_text(_ff_text(blocks) if blocks else "; nothing\n")
                         defs[str(path)] = blocks
                 (root / "user").mkdir()
-                for fname in rng.sample(["u1.ff", "u2.ff", "u3.ff"], rng.randint(0, 3)):
+                for fname in rng.sample(["u1.ff", "u2.ff", "u3.itp"], rng.randint(0, 3)):
                     path = root / "user" / fname
                     blocks = blocks_for(rng.randint(1, 2))
                     path.write_text(_ff_text(blocks) if blocks else "; nothing\n")
@@ -591,10 +592,51 @@ def run_library_load_ff(ctx, count):
                  library_status=impl["status"])
 
 
+def run_library_processes(ctx):
+    """"Repeated runs give identical files": the same `load_ff_library` call (three libraries that all define one
+    block, in the order given) in FRESH interpreter processes with different string-hash seeds — the definition the
+    force field keeps must not depend on the process (and is the one of the library named last)"""
+    import subprocess
+    import sys
+    script = (
+        "import sys, logging\n"
+        "sys.path.insert(0, sys.argv[1])\n"
+        "logging.disable(logging.CRITICAL)\n"
+        "from polyply.src import load_library\n"
+        "load_library.DATA_PATH = sys.argv[2]\n"
+        "ff = load_library.load_ff_library('verif', sys.argv[3:], [])\n"
+        "print('WINNERS', sorted((n, str(b.nodes[list(b.nodes)[0]]['atype'])) for n, b in ff.blocks.items()))\n")
+    libs = ["mylib", "extra", "zz_overrides"]
+    with tempfile.TemporaryDirectory() as tmp:
+        root = pathlib.Path(tmp)
+        for idx, lib in enumerate(libs):
+            (root / lib).mkdir()
+            (root / lib / "blocks.ff").write_text(_ff_text([("PEO", "T%d" % idx), ("ONLY%d" % idx, "U%d" % idx)]))
+        (root / "probe.py").write_text(script)
+        results = {}
+        for hashseed in ("0", "1", "2", "3"):
+            env = dict(os.environ, PYTHONHASHSEED=hashseed)
+            proc = subprocess.run([sys.executable, str(root / "probe.py"), common.REPO, str(root)] + libs, env=env,
+                                  stdout=subprocess.PIPE, stderr=subprocess.STDOUT, text=True, timeout=120)
+            line = next((l for l in proc.stdout.splitlines() if l.startswith("WINNERS")), "FAILED: " + proc.stdout[-300:])
+            results[hashseed] = line
+    replay = dict(kind="library", stream="processes", libs=libs)
+    distinct = sorted(set(results.values()))
+    want = "('PEO', 'T%d')" % (len(libs) - 1)
+    if len(distinct) > 1:
+        ctx.oracle_fail("library-order-depends-on-process", "load_ff_library(libs=%s) in fresh processes with PYTHONHASHSEED 0..3 keeps "
+                        "different definitions of the block all three libraries define: %s" % (libs, results), replay)
+    elif want not in distinct[0]:
+        ctx.oracle_fail("library-order-depends-on-process", "load_ff_library(libs=%s): the block all three libraries define is not the one "
+                        "of the library named last: %s" % (libs, distinct[0]), replay)
+    ctx.case("library:processes", kind="library")
+
+
 def run_library(ctx):
     run_library_get_parser(ctx)
     run_library_read_options(ctx, ctx.budget(80, 1500))
     run_library_load_ff(ctx, ctx.budget(40, 600))
+    run_library_processes(ctx)
 
 
 # ------------------------------------------------------------------------------------------------ links under relabelling
@@ -656,6 +698,31 @@ def run_links_relabel(ctx, count):
                               edges=edge, nonedges=[], patterns=[]))
         rng.shuffle(links)
         case = dict(blocks=[block], links=links, graph=dict(nodes=nodes, edges=edges))
+        variant = _transform_link_case(rng, case)
+        variant["links"] = list(reversed(variant["links"]))
+        pairs.append((case, variant))
+    # a link that only RELABELS a residue type (`replace: {resname: …}` on every atom of the residue) next to links
+    # that bond residues of the old name: they define different things, so their order in the file must not matter
+    for _ in range(ctx.budget(20, 200)):
+        nres = rng.randint(2, 6)
+        beads = rng.choice([1, 1, 2])
+        atoms_a = [dict(name="BB", atype="P1", cg=1)] + ([dict(name="SC1", atype="P2", cg=1)] if beads == 2 else [])
+        block_a = dict(name="A", nrexcl=1, syntax="ff", atoms=atoms_a,
+                       ixns=([["bonds", [0, 1], ["1", "0.3", "100"], {}]] if beads == 2 else []))
+        block_b = dict(name="B", nrexcl=1, syntax="ff", atoms=[dict(name="BB", atype="Q1", cg=1)], ixns=[])
+        nodes = [[i, i + 1, rng.choice(["A", "A", "B"])] for i in range(nres)]
+        edges = [[rng.randrange(i), i, None] for i in range(1, nres)]
+        relabel = dict(atoms=[[a["name"], {"resname": "A", "replace": {"resname": "AX"}}] for a in atoms_a],
+                       ixns=[], edges=[], nonedges=[], patterns=[])
+        bond_aa = dict(atoms=[["BB", {"resname": "A"}], [">BB", {"resname": "A"}]],
+                       ixns=[["bonds", ["BB", ">BB"], ["1", "0.41", "201"], {}]], edges=[], nonedges=[], patterns=[])
+        bond_ab = dict(atoms=[["BB", {"resname": "A|B"}], [">BB", {"resname": "B"}]],
+                       ixns=[["bonds", ["BB", ">BB"], ["1", "0.42", "202"], {}]], edges=[], nonedges=[], patterns=[])
+        bond_ba = dict(atoms=[["BB", {"resname": "B"}], [">BB", {"resname": "A"}]],
+                       ixns=[["bonds", ["BB", ">BB"], ["1", "0.43", "203"], {}]], edges=[], nonedges=[], patterns=[])
+        links = [relabel, bond_aa, bond_ab, bond_ba]
+        rng.shuffle(links)
+        case = dict(blocks=[block_a, block_b], links=links, graph=dict(nodes=nodes, edges=edges))
         variant = _transform_link_case(rng, case)
         variant["links"] = list(reversed(variant["links"]))
         pairs.append((case, variant))
